@@ -159,6 +159,19 @@ func main() {
 		add("storm", Scenario{Kind: "storm", Storm: randomStorm(r.Fork())})
 	}
 
+	// ---- high-volume creation floods (tracers / meters+instruments) across an installation ----
+	nFlood := o.Count(32, 300)
+	for i := 0; i < nFlood; i++ {
+		fr := r.Fork()
+		side := "trace"
+		if i%2 == 1 {
+			side = "meter"
+		}
+		add("flood-"+side, Scenario{Kind: "flood", Flood: &Flood{Seed: fr.U64(), Side: side, Goroutines: fr.Range(4, 8),
+			PerG: vgen.Pick(fr, []int{2000, 4000, 6000}), DelayUs: vgen.Pick(fr, []int{300, 1000, 3000, 8000, 20000}),
+			TailUs: vgen.Pick(fr, []int{200, 2000, 10000}), WatchdogS: 30}})
+	}
+
 	bin, _ := os.Executable()
 	outs := runAll(bin, scs, labels, false)
 
@@ -240,9 +253,12 @@ func buildRace(out string) (string, error) {
 
 func judge(w *vgen.Writer, oc outcome) {
 	desc := map[string]any{"kind": oc.label}
-	if oc.sc.Kind == "seq" {
+	switch oc.sc.Kind {
+	case "seq":
 		desc["steps"] = descSteps(oc.sc.Steps)
-	} else {
+	case "flood":
+		desc["flood"] = oc.sc.Flood
+	default:
 		desc["storm"] = oc.sc.Storm
 	}
 	if oc.race && strings.Contains(oc.stderr, "DATA RACE") {
@@ -290,7 +306,19 @@ func judge(w *vgen.Writer, oc outcome) {
 		w.Add(term, desc, oc.label, nontrivial)
 	} else {
 		desc["stats"] = res.Stats
+		for k, v := range res.Stats {
+			if oc.sc.Kind == "flood" {
+				w.Extra["flood:"+k] = toInt(w.Extra["flood:"+k]) + v
+			}
+		}
 		term := vgen.App("CHist", coqHist(res.Events), coqLive(res.Live))
 		w.Add(term, desc, oc.label, nontrivial)
 	}
+}
+
+func toInt(v any) int {
+	if i, ok := v.(int); ok {
+		return i
+	}
+	return 0
 }
